@@ -1,5 +1,7 @@
 # Human-written metadata per check for MANIFEST.json.
 ENGINES = [
+    {"name": "meshx", "path": "/verif/kit (world.go, node.go, conn.go)", "serves_properties": ["C01", "C06"],
+     "kind_free_text": "event-level explorer over a world of real routers (real state/peering/switch/router modules per node) wired by virtual links or adversary-owned connections; one event = one synchronous call into the real handlers, virtual time via testing/synctest"},
     {"name": "seqx", "path": "/verif/kit (bfs.go) + /verif/checks/*", "serves_properties": ["C01", "C02", "C03", "C11", "C12", "C17", "C19"],
      "kind_free_text": "sequential bounded-exhaustive / explicit-state explorer over the real objects (fresh object + replay per path, canonical state hash)"},
 ]
@@ -42,6 +44,13 @@ META = {
         "design_ref": "DESIGN.md §2 C03",
         "text": "All delivery histories of length 6 (thorough 7) over four 6-number alphabets (contiguous, straddling the 64-frame window edge twice, near 2^32) are delivered to the bare sequence handler, to real end-to-end frames sealed by A and unsealed at B (regular and priority class), and to real link frames; signed class: all words over 5 timestamps through the bare time handler and real signed frames. Each delivery is judged by a reference model (accepted set + maximum): never accepted twice; fresh and within 64 of the newest => accepted; signed => strictly increasing. Complete for the stated alphabets and length, which covers reordering, duplication and loss in every combination.",
         "note": "Numbers outside the alphabets are assumed to behave like those inside; the key-rollover zone (>= 0xFFFFFF00) is excluded here and covered by C15.",
+    },
+    "C06": {
+        "engine": "meshx",
+        "technique": "exhaustive configuration x packet enumeration through the real config parser and router handlers vs reference policy model (with flow-verdict memo)",
+        "design_ref": "DESIGN.md §2 C06",
+        "text": "Every single-service configuration (6 schemes x explicit/default port x 5 access rules x 3 friend sets x isolation on/off; thorough: all ordered pairs of services incl. colliding protocol-port keys, which the parser must reject) goes through the real Store parser into a real router with four real, keyed neighbours (two friends, a listed address, a stranger). Inbound: sender x protocol {0,1,6,17,58,255} x port {0,80,443,8080,81} x one deviation of (inner source, inner destination, frame sealed by another router / garbage), sealed with the sender's real session and injected over its link; outbound: own/foreign source x friend/stranger/listed/multicast/non-Mycoria/unrouted destination x protocol, through the real tun handler in virtual time; two-step sequences over mirrored 5-tuples. What reaches the tun device (byte-exact) and the mesh is compared with a 30-line reference derived from the configuration's intent, including the by-design flow-verdict memo.",
+        "note": "The flow-verdict cache is treated as by design and mirrored in the reference; panics of the handlers are counted here but reported under C13; the local API address as a destination is excluded (no netstack in the harness).",
     },
     "C11": {
         "engine": "seqx",
